@@ -8,6 +8,7 @@ import (
 	"runtime/debug"
 	"runtime/pprof"
 
+	"verif/internal/instr"
 	"verif/internal/props"
 )
 
@@ -17,6 +18,7 @@ func main() {
 		os.Exit(2)
 	}
 	debug.SetGCPercent(400)
+	_ = instr.Available
 	prop := os.Args[1]
 	fs := flag.NewFlagSet("vcheck", flag.ExitOnError)
 	tier := fs.String("tier", "quick", "quick or thorough")
